@@ -89,7 +89,8 @@ type InvoiceDB interface {
 		invoicesToDelete []InvoiceDeleteRef) error
 
 	// DeleteCanceledInvoices removes all canceled invoices from the
-	// database.
+	// database, except those that recorded htlcs: their records are needed
+	// to give a replayed htlc the verdict it got the first time.
 	DeleteCanceledInvoices(ctx context.Context) error
 }
 
